@@ -61,18 +61,34 @@ class Env:
 CTYPES = {".bin": None, ".txt": None, ".ct1": "text/plain; note=caf\xe9", ".ct2": "application/x-\xfc; v=1"}
 
 
-def call(iface, path, chunk, method, headers, resp=None):
+_SUB = {}
+
+
+def file_class(ns, sub):
+    """FileResponse, or a subclass that overrides the public generate_etag() hook (its own validator scheme)"""
+    if not sub:
+        return ns.FileResponse
+    if ns not in _SUB:
+        class VersionedFile(ns.FileResponse):
+            @staticmethod
+            def generate_etag(stat_result):
+                return f"v1-{stat_result.st_size}-{int(stat_result.st_mtime)}"
+        _SUB[ns] = VersionedFile
+    return _SUB[ns]
+
+
+def call(iface, path, chunk, method, headers, resp=None, sub=False):
     from baize import asgi, wsgi
     ctype_arg = CTYPES.get(os.path.splitext(path)[1])
     req = drivers.Req(method=method, path=b"/f", headers=headers,
                       extensions={"http.response.zerocopysend": {}} if iface == "asgi-zc" else None)
     random.seed(20240229)  # same multipart boundary for GET and HEAD / both interfaces
     if iface == "wsgi":
-        resp = resp or wsgi.FileResponse(path, chunk_size=chunk, content_type=ctype_arg)
+        resp = resp or file_class(wsgi, sub)(path, chunk_size=chunk, content_type=ctype_arg)
         r = drivers.run_wsgi(resp, drivers.to_environ(req))
         hdrs = drivers.norm_headers_wsgi(r.headers)
         return r, r.code, hdrs, r.body
-    resp = resp or asgi.FileResponse(path, chunk_size=chunk, content_type=ctype_arg)
+    resp = resp or file_class(asgi, sub)(path, chunk_size=chunk, content_type=ctype_arg)
     r = drivers.run_asgi(resp, drivers.to_scope(req))
     return r, r.status, drivers.norm_headers_asgi(r.headers), r.body
 
@@ -88,9 +104,10 @@ def execute(ctx, env, case, resp=None):
     path, data = env.file(size, case.get("ext", ".bin"))
     ext = case.get("ext", ".bin")
     ctype = CTYPES.get(ext) or ("application/octet-stream" if ext == ".bin" else "text/plain")
-    vkey = (iface, size, case.get("ext", ".bin"))
+    sub = bool(case.get("subclass"))
+    vkey = (iface, size, case.get("ext", ".bin"), sub)
     if vkey not in env.validators:
-        r0, st0, h0, b0 = call(iface, path, chunk, "GET", [])
+        r0, st0, h0, b0 = call(iface, path, chunk, "GET", [], sub=sub)
         env.validators[vkey] = (hget(h0, "etag"), hget(h0, "last-modified"))
     etag, lm = env.validators[vkey]
     headers = []
@@ -106,7 +123,7 @@ def execute(ctx, env, case, resp=None):
 
     fam = "wsgi" if iface == "wsgi" else "asgi"
     try:
-        r, status, hdrs, body = call(iface, path, chunk, method, headers, resp)
+        r, status, hdrs, body = call(iface, path, chunk, method, headers, resp, sub=sub)
     except drivers.HarnessError:
         raise
     if r.exc is not None:
@@ -160,7 +177,7 @@ def execute(ctx, env, case, resp=None):
         if body != b"":
             ctx.violation("head-with-body", case, f"{len(body)} bytes")
         g = dict(case, method="GET")
-        rg, sg, hg, bg = call(iface, path, chunk, "GET", headers)
+        rg, sg, hg, bg = call(iface, path, chunk, "GET", headers, sub=sub)
         ctx.mon("head-equals-get")
         if sg != status or hg != hdrs:
             ctx.violation("head-headers-differ-from-get", case, f"HEAD {status} {hdrs}\nGET  {sg} {hg}")
@@ -268,8 +285,11 @@ def gen_cases(ctx, rng):
                                                      "garbage", "empty", "unquoted-etag"]))
                     for kind in ifr_kinds:
                         for method in (("GET", "HEAD") if rng.random() < 0.3 else ("GET",)):
-                            yield {"iface": iface, "size": size, "chunk": chunk, "range": rh, "if_range": kind,
-                                   "method": method, "ext": rng.choice([".bin"] * 7 + [".txt", ".ct1", ".ct2"])}
+                            c = {"iface": iface, "size": size, "chunk": chunk, "range": rh, "if_range": kind,
+                                 "method": method, "ext": rng.choice([".bin"] * 7 + [".txt", ".ct1", ".ct2"])}
+                            if kind is not None and rng.random() < 0.3:
+                                c["subclass"] = True  # a subclass with its own generate_etag(): "current ETag" is what IT advertises
+                            yield c
 
 
 REGRESSION = [
@@ -288,7 +308,7 @@ def run(ctx):
     n = 0
     for case in REGRESSION + list(gen_cases(ctx, rng)) if ctx.shard == 0 else gen_cases(ctx, rng):
         execute(ctx, env, case)
-        key = (case["iface"], case["method"], case["size"], case["chunk"], case["range"], case["if_range"])
+        key = (case["iface"], case["method"], case["size"], case["chunk"], case["range"], case["if_range"], bool(case.get("subclass")))
         ctx.case(key if case["range"] is not None else None)
         n += 1
         if case["range"] and "," in case["range"]:
